@@ -9,7 +9,7 @@ RULE = ("all 9 combinations authentication {HMAC-SHA1, HMAC-MD5, HMAC-SHA256} x 
         "exchange (its own view: stored key zero-padded to 20 bytes, received R_M, its R_C ...); RAKP 2 / RAKP 4 sent by the simulated "
         "BMC equal the SpecBmc's byte for byte (validates the fixture); every subsequent command is accepted by the BMC's integrity "
         "check and decryption and its response is returned.  tie: Coq new_session on the delivered bytes gives the same datagrams, keys "
-        "and IDs.  distinct by the configuration tuple")
+        "and IDs.  + for each of the nine suites: three or four sessions one after the other on one connection (other user, other password, same password under another name; the caller's options value kept and re-assigned with KG never set, or fresh; the earlier session closed or left open), same predicates for each.  distinct by the configuration tuple")
 
 
 def configs(ch):
@@ -44,6 +44,59 @@ def configs(ch):
                                 "priv": priv, "user": user, "pw": pw, "seed": rng.randrange(1 << 30),
                                 "guid": bytes(rng.randrange(256) for _ in range(16))})
     return out
+
+
+def reopen(ch):
+    """several sessions one after the other on ONE connection - other user, other password, the caller's options value kept
+    and re-assigned (KG never set by the caller) or fresh, the earlier session closed or still open: each must open with the
+    BMC's keys and carry commands, whatever was opened before"""
+    rng = ch.rng
+    scns = []
+    for k, su in enumerate(hist.SUITES):
+        for reuse in (True, False):
+            pa = bytes(rng.randrange(1, 256) for _ in range(rng.randrange(1, 21)))
+            pb = bytes(rng.randrange(1, 256) for _ in range(rng.randrange(1, 21)))
+            bmc = conn.default_bmc(seed=900 + k, suites=[[100, su[0], su[1], su[2]]],
+                                   users=[{"name": "alice", "password": pa.hex(), "maxpriv": 4}, {"name": "bob", "password": pb.hex(), "maxpriv": 4},
+                                          {"name": "carol", "password": pa.hex(), "maxpriv": 4}])
+            order = [("alice", pa), ("bob", pb), ("carol", pa), ("alice", pa)] if k % 2 else [("bob", pb), ("alice", pa), ("bob", pb)]
+            steps = []
+            for j, (u, p) in enumerate(order):
+                steps.append(dict(hs.open_step(user=u, password=p, priv=4, lookup=bool((k + j) % 2), suites=[su]), reuse_opts=reuse))
+                steps.append({"op": "cmd", "conn": "session", "cmd": {"name": "getdeviceid"}, "script": ["ok"]})
+                if (k + j) % 3:
+                    steps.append({"op": "close"})
+            scns.append({"bmc": bmc, "timeout_ms": 40, "steps": steps, "reuse": reuse, "suite": su})
+    outs = conn.run_scenarios(scns)
+    lines, idx = [], []
+    for scn, out in zip(scns, outs):
+        su = tuple(scn["suite"])
+        n_open = 0
+        for ti, (st, res) in enumerate(zip(scn["steps"], out["steps"])):
+            desc = {"kind": "c01-reopen", "suite": list(su), "reuse_opts": scn["reuse"], "nth_open": n_open}
+            if res.get("panic"):
+                ch.violation(dict(desc, kind="panic"), {"scenario": scn, "step_index": ti, "panic": res["panic"]}); break
+            if st["op"] == "open":
+                n_open += 1
+                desc["nth_open"] = n_open
+                ch.note_case("c01-reopen", "%s|%s|%d" % (su, scn["reuse"], n_open))
+                if res["err"] != "nil":
+                    ch.violation(desc, {"scenario": scn, "step_index": ti, "err": res["err"], "errtext": res.get("errtext"),
+                                        "what": "session %d on this connection failed to open against a conforming BMC (user %s)" % (n_open, st["user"])})
+                    break
+                b = hs.bmc_session_for(out, res)
+                s = res["session"]
+                if b is None or (s["sik"], s["k1"], s["k2"]) != (b["sik"], b["k1"], b["k2"]):
+                    ch.violation(desc, {"scenario": scn, "step_index": ti, "what": "keys of session %d differ from the BMC's" % n_open, "console": s, "bmc": b})
+                    break
+                lines.append(hs.hs_line(st, res, su)); idx.append((scn, st, res, desc))
+            elif st["op"] == "cmd":
+                if not all(e["accepted"] for e in res["bmc"]) or res["err"] != "nil" or (res["bmc"] and res["code"] != res["bmc"][-1]["cc"]):
+                    ch.violation(desc, {"scenario": scn, "step_index": ti, "what": "command on session %d rejected by the BMC or response not returned" % n_open,
+                                        "events": res["bmc"], "err": res["err"]})
+                    break
+    for (scn, st, res, desc), mo in zip(idx, core.oracle(lines)):
+        hs.tie_open(ch, "c01", scn, st, res, mo, tuple(scn["suite"]), desc)
 
 
 def run(ch, build):
@@ -137,6 +190,7 @@ def run(ch, build):
             if sim2 != kv["rakp2"] or sim4 != kv["rakp4"]:
                 ch.corr_break(dict(desc, kind="fixture"), {"scenario": scn, "what": "simulated BMC's RAKP 2/4 differ from the Coq SpecBmc's",
                                                            "sim": [sim2, sim4], "spec": [kv["rakp2"], kv["rakp4"]]})
+    reopen(ch)
     ch.extra["configurations"] = len(cfgs)
     return ch.finish(rule=RULE, assumptions=[
         "Go crypto = the named algorithms (Gallina instances validated against it in C05's crypto family)",
